@@ -15,6 +15,10 @@ structure St where
   sp : DBSpec.SpecSt := {}
   /-- armed write fault for the next commit: index of the record whose write fails -/
   fault : Option Nat := none
+  /-- armed sync fault for the next commit: index of the record after whose write `Sync` fails -/
+  sfault : Option Nat := none
+  /-- `SyncEnable` of the last `open` line (the database model forgets it: C19) -/
+  syncOn : Bool := false
   /-- `backup <n>`: the data files and the spec state at that moment (the copy is opened later) -/
   backups : List (Nat × List File × Nuts.Spec.DB.SpecDB) := []
   deriving Inhabited
@@ -157,8 +161,8 @@ def stepModel (st : St) (cmd : String) (impl : String) : St × Verdict :=
     let opt : Opts := { mode := N 1, rw := N 2, startRw := N 3, sync := N 4 == 1, seg := N 5 }
     let (s', o) := openDB opt s.files
     match o with
-    | .ok _ => ({ st with db := s', tx := none }, v "ok" s!"open/{c}")
-    | _ => ({ st with db := { s with opt := opt, opened := false }, tx := none }, v (unitOut o) s!"open/{c}")
+    | .ok _ => ({ st with db := s', tx := none, syncOn := opt.sync }, v "ok" s!"open/{c}")
+    | _ => ({ st with db := { s with opt := opt, opened := false }, tx := none, syncOn := opt.sync }, v (unitOut o) s!"open/{c}")
   | "begin" =>
     if s.closed || !s.opened then (st, v "err" s!"begin/{c}")
     else
@@ -171,9 +175,12 @@ def stepModel (st : St) (cmd : String) (impl : String) : St × Verdict :=
     | some t =>
       if t.closed then (st, v "err" "commit/closed")
       else
-        let (s', o) := if t.writable then commitF s t.pending st.fault else (s, .ok ())
-        ({ st with db := s', tx := some { t with closed := true, pending := [] }, fault := none },
-          v (unitOut o) (s!"commit/{c}/{t.pending.length}" ++ (if st.fault.isSome then "/fault" else "")))
+        let (s', o) := if !t.writable then (s, .ok ())
+          else match st.sfault with
+            | some k => if st.syncOn then commitS s t.pending k else commitF s t.pending st.fault
+            | none => commitF s t.pending st.fault
+        ({ st with db := s', tx := some { t with closed := true, pending := [] }, fault := none, sfault := none },
+          v (unitOut o) (s!"commit/{c}/{t.pending.length}" ++ (if st.fault.isSome then "/fault" else "") ++ (if st.sfault.isSome then "/sfault" else "")))
   | "rollback" =>
     match st.tx with
     | none => (st, v "err" "rollback/none")
@@ -192,6 +199,7 @@ def stepModel (st : St) (cmd : String) (impl : String) : St × Verdict :=
   | "obs" => (rd (obsBuckets.flatMap fun b => getAllFetched s b (N 1)), v ("ok " ++ obs s (N 1)) "obs")
   | "capture" => (st, v "ok" "capture")
   | "fault" => ({ st with fault := some (N 1) }, v "ok" "fault")
+  | "sfault" => ({ st with sfault := some (N 1) }, v "ok" "sfault")
   | "concmerge" => (st, v "ok" "concmerge")
   | "image" =>
     -- the crash image is an input (its record listing comes from the implementation's own reader);
